@@ -34,6 +34,8 @@ class Explorer:
         self.n_queries = 0
         self.solver_s = 0.0
         self.unknown = 0
+        self.uncertain = False
+        self.unproved_failures = 0
 
     def _sample(self, cond):
         """cheap witness search before calling the solver: evaluate pre AND pc AND cond at seeded random rational points"""
@@ -68,6 +70,7 @@ class Explorer:
         self.solver_s += time.time() - t
         if r == "unknown":
             self.unknown += 1
+            self.uncertain = True
             return True  # over-approximate: explore it; the per-path obligation still carries the pc
         return r == "sat"
 
@@ -112,6 +115,7 @@ class Explorer:
         while True:
             self.pos = 0
             self.pc = []
+            self.uncertain = False
             prev = ACTIVE
             ACTIVE = self
             try:
@@ -119,6 +123,13 @@ class Explorer:
                     res = fn()
                     ok = True
                 except Infeasible:
+                    ok = False
+                except (IndexError, ZeroDivisionError, ValueError, ArithmeticError) as ex:
+                    if not self.uncertain:
+                        raise
+                    # the path was admitted only because a feasibility query timed out: it may well be infeasible, so the failure of
+                    # the code under test on it proves nothing; it is counted and makes the exploration inconclusive
+                    self.unproved_failures += 1
                     ok = False
             finally:
                 ACTIVE = prev
